@@ -30,6 +30,9 @@ def shards(tier):
                         out.append(dict(base, op="transfer", sgeo=sg, dgeo=dg, same=same, k=2, steps=1, partition_by="auto", washes=[1], ncand=2, auto_split=False))
                 out.append(dict(base, op="distribute", sgeo="t3x2", dgeo="p2x2", k=1, steps=1))
                 if hist == 3 and label == "op":
+                    # two distinct labware objects that carry the same name (replicate plates): still two participating labware
+                    out.append(dict(base, op="transfer", sgeo="p2x2", dgeo="p2x2", k=1, steps=2, partition_by="auto", washes=[1], same_name=True))
+                if hist == 3 and label == "op":
                     for op in ("aspirate", "dispense"):
                         out.append(dict(base, op=op, sgeo="p2x2", dgeo="t3x2", k=2, steps=1, allow_reject=True))
                     out.append(dict(base, op="transfer", sgeo="p2x2", dgeo="t3x2", k=2, steps=1, partition_by="auto", washes=[1], ncand=2, allow_reject=True))
@@ -55,6 +58,8 @@ def scenario(ctx, p):
     if direct:
         q["op"] = "aspirate"
     W = wlops.build(ctx, q)
+    if p.get("same_name"):
+        W.dst.name = W.src.name   # the harness keeps addressing it as "D"
     np = ctx.np
     W.hist0 = {}
     for name, lab in W.labs.items():
